@@ -90,3 +90,21 @@ func WriteConsensusValidatorsInfo(db kaidb.KeyValueWriter, hash common.Hash, val
 func DeleteConsensusValidatorsInfo(db kaidb.KeyValueWriter, hash common.Hash) error {
 	return db.Delete(calcConsensusValidatorsInfoKey(hash))
 }
+
+// ReadConsensusValidatorsPriorities returns the raw proposer-priority record of the state at the given
+// height, or nil if there is none (databases written before the record existed).
+func ReadConsensusValidatorsPriorities(db kaidb.Reader, height uint64) []byte {
+	buf, err := db.Get(calcConsensusValidatorsPrioritiesKey(height))
+	if err != nil {
+		return nil
+	}
+	return buf
+}
+
+func WriteConsensusValidatorsPriorities(db kaidb.KeyValueWriter, height uint64, data []byte) error {
+	return db.Put(calcConsensusValidatorsPrioritiesKey(height), data)
+}
+
+func DeleteConsensusValidatorsPriorities(db kaidb.KeyValueWriter, height uint64) error {
+	return db.Delete(calcConsensusValidatorsPrioritiesKey(height))
+}
